@@ -265,7 +265,10 @@ pub fn check_advertising(t: &Torrent, o: &Outcome, stats: &mut HashMap<&'static 
         let sent_bf = conn_events.iter().find_map(|e| match &e.kind { EvKind::Send { msg: Msg::Bitfield(b), .. } => Some((e.seq, b.clone())), _ => None });
         if let (Some(init), Some((bseq, b))) = (init, &sent_bf) {
             if let EvKind::Mgr { after, .. } = &init.kind {
-                let owned: Vec<bool> = after.statuses.iter().map(|s| *s == Status::Have).collect();
+                // verified and stored at that moment = every piece whose completion the manager has
+                // handled so far (a piece once stored stays stored; the manager's current status
+                // vector is not the reference: it is part of what is being judged)
+                let owned: Vec<bool> = (0..after.statuses.len()).map(|i| comps.iter().any(|c| c.1 == i && c.0 < init.seq)).collect();
                 *stats.entry("bitfields_checked").or_default() += 1;
                 if *b != bitfield_bytes(&owned) {
                     return Some(Finding { sig: "C11:bitfield-differs-from-owned-set".into(), what: format!("bitfield {} sent to {} but the owned set at its handshake is {}", crate::util::hex(b), a, crate::util::hex(&bitfield_bytes(&owned))), at_seq: *bseq });
